@@ -571,6 +571,31 @@ func Watchdog(sub string, c any, d time.Duration, f func()) {
 	}
 }
 
+// ErrHang is returned by WatchdogErr.
+var ErrHang = fmt.Errorf("call did not return (hang)")
+
+// WatchdogErr runs f; if it does not return within d it returns ErrHang and leaves f running in its goroutine (which
+// cannot be killed and keeps a core busy until the process ends). For calls whose non-termination on some inputs is a
+// recorded finding: the check decides whether the input is of that class.
+func WatchdogErr(d time.Duration, f func()) error {
+	done := make(chan any, 1)
+	go func() {
+		defer func() { done <- recover() }()
+		f()
+	}()
+	timer := time.NewTimer(d)
+	defer timer.Stop()
+	select {
+	case x := <-done:
+		if x != nil {
+			panic(x)
+		}
+		return nil
+	case <-timer.C:
+		return fmt.Errorf("%w within %v", ErrHang, d)
+	}
+}
+
 // Errorf is fmt.Errorf (saves an import in property files).
 func Errorf(format string, a ...any) error { return fmt.Errorf(format, a...) }
 
